@@ -60,8 +60,10 @@ def main() -> int:
                 shutil.copytree(source, os.path.join(work, item), ignore=shutil.ignore_patterns("__pycache__", "*.egg-info", "golden"))
             elif os.path.exists(source):
                 shutil.copy(source, work)
-        clean_src = os.path.join(scratch, "clean_src")
-        shutil.copytree(os.path.join(work, "src"), clean_src)
+        # unpatched twin with the same shape (demos may locate config/ and input/ relative to the rp2 package)
+        clean = os.path.join(scratch, "clean")
+        shutil.copytree(work, clean)
+        clean_src = os.path.join(clean, "src")
         proc = subprocess.run(["git", "apply", "--unsafe-paths", "--directory", work, os.path.join(directory, "patch.diff")], cwd=work, capture_output=True, text=True)
         if proc.returncode != 0:
             proc = subprocess.run(["patch", "-p1", "-s", "-i", os.path.join(directory, "patch.diff")], cwd=work, capture_output=True, text=True)
